@@ -412,22 +412,39 @@ fn timed_overlap(out: &mut Out, r: &mut Rng) {
         Timer,
     }
     let mut evs: Vec<(u64, Ev)> = vec![];
+    // frames start 40..60 ms apart, so that their deadlines are 40..60 ms apart too: timer() calls are placed in the windows
+    // between consecutive deadlines (15 ms away from both), last fragments anywhere up to just before the frame's own deadline
+    let mut starts: Vec<u64> = vec![];
+    let mut at = 0u64;
+    for _ in 0..n {
+        starts.push(at);
+        at += 40 + r.below(21) as u64;
+    }
     for (i, (_, fr)) in frames.iter().enumerate() {
-        let start = (i as u64) * (10 + r.below(25) as u64);
-        let fate = r.below(4); // 0: completes at once, 1: completes late but in time, 2: last fragment after the deadline, 3: never
+        let start = starts[i];
+        let fate = r.below(5); // 0: completes at once, 1/2: completes late but in time, 3: last fragment after the deadline, 4: never
         let k = fr.len();
         for j in 0..k - 1 {
-            evs.push((start + (j as u64) * (1 + r.below(8) as u64), Ev::Frag(i, j)));
+            evs.push((start + (j as u64) * (1 + r.below(4) as u64), Ev::Frag(i, j)));
         }
         match fate {
-            0 => evs.push((start + 12, Ev::Frag(i, k - 1))),
-            1 => evs.push((start + 30 + r.below(40) as u64, Ev::Frag(i, k - 1))),
-            2 => evs.push((start + t_ms + 30 + r.below(60) as u64, Ev::Frag(i, k - 1))),
+            0 => evs.push((start + 10 + r.below(8) as u64, Ev::Frag(i, k - 1))),
+            1 | 2 => evs.push((start + 45 + r.below(44) as u64, Ev::Frag(i, k - 1))),
+            3 => evs.push((start + t_ms + 20 + r.below(60) as u64, Ev::Frag(i, k - 1))),
             _ => {}
         }
     }
-    for k in 0..(2 + r.below(5)) {
-        evs.push((20 + (k as u64) * (25 + r.below(30) as u64) + r.below(40) as u64, Ev::Timer));
+    for i in 0..n {
+        if r.chance(2, 3) {
+            let lo = starts[i] + t_ms + 15;
+            let hi = if i + 1 < n { starts[i + 1] + t_ms - 15 } else { lo + 30 };
+            if hi > lo {
+                evs.push((lo + r.below((hi - lo) as usize) as u64, Ev::Timer));
+            }
+        }
+    }
+    if r.chance(1, 2) {
+        evs.push((30 + r.below(60) as u64, Ev::Timer)); // an early one: nothing is due yet
     }
     evs.sort_by_key(|e| e.0);
     // run on the real clock
